@@ -65,8 +65,10 @@ class Q:
 def families():
     qs = []
     # --- translator self-test (deterministic single-thread programs; prediction compared with the real code)
-    qs.append(Q("selftest_setup_S_2_opt", ["C02", "C06", "C07", "C12"], "quick", "safe", "Optimistic", "S_2", [["alloc_bytes", 2], ["free_last"]], None, [30], 1, 1,
+    qs.append(Q("selftest_setup_S_H_opt", ["C02", "C06", "C07", "C12"], "quick", "safe", "Optimistic", "S_H", [["alloc_bytes", 2], ["free_last"]], None, [30], 1, 1,
                 n1=(10, 10), selftest=True, timeout=300))
+    qs.append(Q("selftest_setup_S_2_opt", ["C02", "C06", "C07", "C12"], "thorough", "safe", "Optimistic", "S_2", [["alloc_bytes", 2], ["free_last"]], None, [30], 1, 1,
+                n1=(10, 10), selftest=True, timeout=600))
     qs.append(Q("selftest_setup_S_HN_pess", ["C02", "C06", "C07", "C12"], "thorough", "safe", "Pessimistic", "S_HN", [["alloc_bytes", 2], ["free_last"]], None, [30], 1, 1,
                 n1=(5, 5), selftest=True, timeout=300))
     # --- C02: safety under interleavings
@@ -75,13 +77,15 @@ def families():
         qs.append(Q("safe_alloc_vs_dealloc_%s_sw2_d" % tag, ["C02"], "quick" if tag == "pess" else "thorough", "safe", fl, "S_H", ALLOC, DEALLOC, [24, 16], 2, 2))
         qs.append(Q("safe_alloc_vs_alloc_%s_sw2" % tag, ["C02"], "thorough", "safe", fl, "S_2", ALLOC, ALLOC, [24, 24], 2, 1, n1=(1, 16)))
         qs.append(Q("safe_alloc_vs_dealloc_%s_sw3" % tag, ["C02"], "thorough", "safe", fl, "S_H", ALLOC, DEALLOC, [24, 16], 3, 1, timeout=1800))
-    qs.append(Q("safe_bump_vs_toprelease_none_sw2", ["C02"], "quick", "safe", "None", "S_E", ALLOC_FREE, DEALLOC_ALLOC, [14, 14], 2, 2, n1=(1, 24)))
+    qs.append(Q("safe_bump_vs_toprelease_none_sw2", ["C02"], "quick", "safe", "None", "S_E", ALLOC_FREE, DEALLOC_ALLOC, [14, 14], 2, 1, n1=(1, 24)))
+    qs.append(Q("safe_bump_vs_toprelease_none_sw3", ["C02"], "quick", "safe", "None", "S_E", ALLOC_FREE, DEALLOC_ALLOC, [14, 14], 3, 2, n1=(1, 24)))
     qs.append(Q("safe_bump_vs_toprelease_opt_sw3", ["C02"], "thorough", "safe", "Optimistic", "S_E", ALLOC_FREE, DEALLOC_ALLOC, [16, 18], 3, 2, n1=(1, 24), timeout=1800))
     # --- C07: no operation waits for ever
     qs.append(Q("live_alloc_vs_dealloc_opt_sw3", ["C07"], "quick", "live", "Optimistic", "S_HN", ALLOC, DEALLOC, [24, 16], 3, 1, n1=(1, 8), role="waiter_after_pop"))
     qs.append(Q("live_alloc_vs_dealloc_pess_sw3", ["C07"], "thorough", "live", "Pessimistic", "S_HN", ALLOC, DEALLOC, [24, 16], 3, 1, n1=(1, 8), role="waiter_after_pop"))
     qs.append(Q("live_alloc_vs_dealloc_opt_sw3_d", ["C07"], "thorough", "live", "Optimistic", "S_HN", ALLOC, DEALLOC, [24, 16], 3, 2, n1=(1, 8)))
-    qs.append(Q("live_alloc_vs_alloc_opt_sw2", ["C07"], "quick", "live", "Optimistic", "S_2", ALLOC, ALLOC, [24, 24], 2, 1, n1=(1, 16)))
+    qs.append(Q("live_alloc_vs_alloc_opt_sw2", ["C07"], "thorough", "live", "Optimistic", "S_2", ALLOC, ALLOC, [24, 24], 2, 1, n1=(1, 16), timeout=2400))
+    qs.append(Q("live_bump_vs_toprelease_none_sw3", ["C07"], "quick", "live", "None", "S_E", ALLOC_FREE, DEALLOC_ALLOC, [14, 14], 3, 1, n1=(1, 24)))
     qs.append(Q("live_bump_none_sw2", ["C07"], "thorough", "live", "None", "S_E", ALLOC_FREE, DEALLOC_ALLOC, [14, 14], 2, 1))
     # --- C12: happens-before between the previous owner, the arena's zeroing and the next owner
     qs.append(Q("hb_dealloc_then_alloc_opt_sw2", ["C12"], "quick", "hb", "Optimistic", "S_HN", ALLOC_FREE, DEALLOC, [30, 16], 2, 2, n1=(1, 16)))
@@ -215,6 +219,8 @@ def known_match(known, pid, q, cex):
         if e.get("spin_fn") and not re.search(e["spin_fn"], sp.get("fn", "")):
             continue
         if e.get("spin_word_size") is not None and ((sp.get("word", 1 << 63) >> 32) != e["spin_word_size"]):
+            continue
+        if e.get("victim_last") and not re.search(e["victim_last"], cex.get("victim_last", "")):
             continue
         if e.get("bad") and not any(re.search(e["bad"], b[1]) for b in cex.get("bad", [])):
             continue
